@@ -92,10 +92,10 @@ static int op_convert(int argc, char **argv, FILE *out)
         int id = atoi(argv[0]);
         if(id != 5 && id != 13 && id != 23 && id != 21 && id != 8) return 1;
         int len = (int)strlen(argv[1]);
-        if(len + 1 > 512) return 1;
         struct msa *m = NULL;
         alloc_msa(&m, 1);
         m->quiet = 1; m->numseq = 1;
+        while(m->sequences[0]->alloc_len < len + 2){ resize_msa_seq(m->sequences[0]); }
         m->sequences[0]->len = len;
         memcpy(m->sequences[0]->seq, argv[1], len + 1);
         FILE *save = stderr; (void)save;
